@@ -1306,4 +1306,384 @@ theorem varyProgramsOuter_other (base : PH) (n : Nat) (vars : KV) (b : String) :
       exact varyProgramsInner_other base n off b vars acc acc1 hi
         (fun q hq => hb q off hq (Nat.le_refl _) (by omega))
 
+
+/-! ### description → value: chains, prefix-free leaf paths -/
+
+theorem touched_chain_prefix : ∀ (q' : Path) (v' : J) (q : Path),
+    touched (chain q' v') q = true → q' <+: q
+  | [], _, q, _ => List.nil_prefix
+  | k' :: q'', v', [], h => by simp [chain, touched] at h
+  | k' :: q'', v', k :: qs, h => by
+    by_cases hk : k' = k
+    · subst hk
+      simp only [chain, touched, KV.lookup, if_true] at h
+      have := touched_chain_prefix q'' v' qs h
+      exact List.cons_prefix_cons.mpr ⟨rfl, this⟩
+    · simp [chain, touched, KV.lookup, hk] at h
+
+theorem touched_chain_self : ∀ (q : Path) (v : J), v.isObj = false → touched (chain q v) q = true
+  | [], v, hv => touched_leaf hv []
+  | k :: q, v, hv => by
+    simp [chain, touched, KV.lookup, touched_chain_self q v hv]
+
+theorem get?_chain : ∀ (q : Path) (v : J), get? q (chain q v) = some v
+  | [], v => get?_nil v
+  | k :: q, v => by simp [chain, get?, KV.lookup, get?_chain q v]
+
+/-- neither path is a prefix of the other -/
+def Incomparable (a b : Path) : Prop := ¬ a <+: b ∧ ¬ b <+: a
+
+theorem listLeaves_cons (k : String) (v : J) (rest : KV) :
+    listLeaves (.cons k v rest) =
+      (match v with
+        | .obj vk => (listLeaves vk).map (fun pl => (k :: pl.1, pl.2))
+        | .list l => [([k], l)]
+        | _ => []) ++ listLeaves rest := by
+  cases v <;> simp [listLeaves]
+
+theorem listLeaves_head : ∀ (vk : KV) (q : Path) (l : JL), (q, l) ∈ listLeaves vk →
+    ∃ k q', q = k :: q' ∧ k ∈ vk.keys
+  | .nil, _, _, h => by simp [listLeaves] at h
+  | .cons k v rest, q, l, h => by
+    rw [listLeaves_cons, List.mem_append] at h
+    rcases h with h | h
+    · cases v with
+      | obj vk' =>
+        simp only [List.mem_map, Prod.mk.injEq] at h
+        obtain ⟨pl, _, hq, _⟩ := h
+        exact ⟨k, pl.1, hq.symm, by simp [KV.keys]⟩
+      | list ll =>
+        simp only [List.mem_singleton, Prod.mk.injEq] at h
+        exact ⟨k, [], h.1, by simp [KV.keys]⟩
+      | _ => simp at h
+    · obtain ⟨k', q', hq, hk'⟩ := listLeaves_head rest q l h
+      exact ⟨k', q', hq, by simp [KV.keys, hk']⟩
+
+/-- the described leaf paths of a well-formed description are pairwise incomparable -/
+theorem listLeaves_prefixFree : ∀ (vk : KV), vk.wf = true →
+    ((listLeaves vk).map Prod.fst).Pairwise Incomparable
+  | .nil, _ => by simp [listLeaves]
+  | .cons k v rest, hwf => by
+    obtain ⟨hk, hvwf, hrwf⟩ := KV.wf_cons hwf
+    rw [listLeaves_cons, List.map_append, List.pairwise_append]
+    refine ⟨?_, listLeaves_prefixFree rest hrwf, ?_⟩
+    · cases v with
+      | obj vk' =>
+        have ih := listLeaves_prefixFree vk' (by simpa [J.wf] using hvwf)
+        simp only [List.map_map]
+        have : (List.map (Prod.fst ∘ fun pl : Path × JL => (k :: pl.1, pl.2)) (listLeaves vk'))
+            = List.map (fun q => k :: q) (List.map Prod.fst (listLeaves vk')) := by
+          simp [List.map_map, Function.comp]
+        rw [this, List.pairwise_map]
+        apply List.Pairwise.imp _ ih
+        intro a b hab
+        exact ⟨fun h => hab.1 (List.cons_prefix_cons.mp h).2,
+               fun h => hab.2 (List.cons_prefix_cons.mp h).2⟩
+      | list ll => simp
+      | _ => simp
+    · intro a ha b hb
+      simp only [List.mem_map] at ha hb
+      obtain ⟨⟨qa, la⟩, hma, rfl⟩ := ha
+      obtain ⟨⟨qb, lb⟩, hmb, rfl⟩ := hb
+      obtain ⟨k', qb', hqb, hk'⟩ := listLeaves_head rest qb lb hmb
+      have hqa : ∃ qa', qa = k :: qa' := by
+        cases v with
+        | obj vk' =>
+          simp only [List.mem_map, Prod.mk.injEq] at hma
+          obtain ⟨pl, _, hq, _⟩ := hma
+          exact ⟨pl.1, hq.symm⟩
+        | list ll =>
+          simp only [List.mem_singleton, Prod.mk.injEq] at hma
+          exact ⟨[], hma.1⟩
+        | _ => simp at hma
+      obtain ⟨qa', hqa⟩ := hqa
+      have hne : k ≠ k' := fun e => hk (e ▸ hk')
+      simp only [hqa, hqb]
+      exact ⟨fun h => hne (List.cons_prefix_cons.mp h).1,
+             fun h => hne (List.cons_prefix_cons.mp h).1.symm⟩
+
+theorem map_some_split {α β} (f : α → Option β) : ∀ (l1 : List α) (e : α) (l2 : List α) (b : List β),
+    (l1 ++ e :: l2).map f = b.map some →
+    ∃ b1 x b2, b = b1 ++ x :: b2 ∧ f e = some x ∧ l2.map f = b2.map some
+  | [], e, l2, b, h => by
+    cases b with
+    | nil => simp at h
+    | cons x b2 =>
+      simp only [List.nil_append, List.map_cons, List.cons.injEq] at h
+      exact ⟨[], x, b2, rfl, h.1, h.2⟩
+  | a :: l1, e, l2, b, h => by
+    cases b with
+    | nil => simp at h
+    | cons y b' =>
+      simp only [List.cons_append, List.map_cons, List.cons.injEq] at h
+      obtain ⟨b1, x, b2, hb, hx, h2⟩ := map_some_split f l1 e l2 b' h.2
+      exact ⟨y :: b1, x, b2, by simp [hb], hx, h2⟩
+
+theorem unpack_lookup (n : Nat) : ∀ (desc vars : KV) (k : String) (vk : KV),
+    unpack n desc = .ok vars → desc.lookup k = some (.obj vk) →
+    ∃ L, unpackRange vk n 0 = .ok L ∧ vars.lookup k = some (.list (JL.ofList L))
+  | .nil, _, _, _, _, hl => by simp [KV.lookup] at hl
+  | .cons k0 (.obj vk0) rest, vars, k, vk, h, hl => by
+    simp only [unpack] at h
+    cases hr : unpackRange vk0 n 0 with
+    | error e => simp [hr] at h
+    | ok L =>
+      simp only [hr] at h
+      cases ht : unpack n rest with
+      | error e => simp [ht] at h
+      | ok t =>
+        simp only [ht] at h
+        cases h
+        by_cases hk : k0 = k
+        · subst hk
+          simp only [KV.lookup, if_true] at hl
+          cases hl
+          exact ⟨L, hr, by simp [KV.lookup]⟩
+        · simp only [KV.lookup, hk, if_false] at hl
+          obtain ⟨L', h1, h2⟩ := unpack_lookup n rest t k vk ht hl
+          exact ⟨L', h1, by simp [KV.lookup, hk, h2]⟩
+  | .cons k0 (.list l0) rest, vars, k, vk, h, hl => by
+    simp only [unpack] at h
+    cases ht : unpack n rest with
+    | error e => simp [ht] at h
+    | ok t =>
+      simp only [ht] at h
+      cases h
+      by_cases hk : k0 = k
+      · simp [KV.lookup, hk] at hl
+      · simp only [KV.lookup, hk, if_false] at hl
+        obtain ⟨L', h1, h2⟩ := unpack_lookup n rest t k vk ht hl
+        exact ⟨L', h1, by simp [KV.lookup, hk, h2]⟩
+  | .cons k0 .null rest, vars, k, vk, h, hl => by
+    simp only [unpack] at h
+    cases ht : unpack n rest with
+    | error e => simp [ht] at h
+    | ok t =>
+      simp only [ht] at h
+      cases h
+      by_cases hk : k0 = k
+      · simp [KV.lookup, hk] at hl
+      · simp only [KV.lookup, hk, if_false] at hl
+        obtain ⟨L', h1, h2⟩ := unpack_lookup n rest t k vk ht hl
+        exact ⟨L', h1, by simp [KV.lookup, hk, h2]⟩
+  | .cons k0 (.bool _) rest, vars, k, vk, h, hl => by
+    simp only [unpack] at h
+    cases ht : unpack n rest with
+    | error e => simp [ht] at h
+    | ok t =>
+      simp only [ht] at h
+      cases h
+      by_cases hk : k0 = k
+      · simp [KV.lookup, hk] at hl
+      · simp only [KV.lookup, hk, if_false] at hl
+        obtain ⟨L', h1, h2⟩ := unpack_lookup n rest t k vk ht hl
+        exact ⟨L', h1, by simp [KV.lookup, hk, h2]⟩
+  | .cons k0 (.int _) rest, vars, k, vk, h, hl => by
+    simp only [unpack] at h
+    cases ht : unpack n rest with
+    | error e => simp [ht] at h
+    | ok t =>
+      simp only [ht] at h
+      cases h
+      by_cases hk : k0 = k
+      · simp [KV.lookup, hk] at hl
+      · simp only [KV.lookup, hk, if_false] at hl
+        obtain ⟨L', h1, h2⟩ := unpack_lookup n rest t k vk ht hl
+        exact ⟨L', h1, by simp [KV.lookup, hk, h2]⟩
+  | .cons k0 (.float _ _) rest, vars, k, vk, h, hl => by
+    simp only [unpack] at h
+    cases ht : unpack n rest with
+    | error e => simp [ht] at h
+    | ok t =>
+      simp only [ht] at h
+      cases h
+      by_cases hk : k0 = k
+      · simp [KV.lookup, hk] at hl
+      · simp only [KV.lookup, hk, if_false] at hl
+        obtain ⟨L', h1, h2⟩ := unpack_lookup n rest t k vk ht hl
+        exact ⟨L', h1, by simp [KV.lookup, hk, h2]⟩
+  | .cons k0 (.str _) rest, vars, k, vk, h, hl => by
+    simp only [unpack] at h
+    cases ht : unpack n rest with
+    | error e => simp [ht] at h
+    | ok t =>
+      simp only [ht] at h
+      cases h
+      by_cases hk : k0 = k
+      · simp [KV.lookup, hk] at hl
+      · simp only [KV.lookup, hk, if_false] at hl
+        obtain ⟨L', h1, h2⟩ := unpack_lookup n rest t k vk ht hl
+        exact ⟨L', h1, by simp [KV.lookup, hk, h2]⟩
+
+
+/-! ### programs level: the varied copies -/
+
+theorem varyProgram_inv {base : PH} {n i : Nat} {pname : String} {pvars : J}
+    {nm : String} {p : J} {sm : SM} (h : varyProgram base n i pname pvars = .ok (nm, p, sm)) :
+    ∃ pk vk pk1 pk2, base.programs.lookup pname = some (.obj pk) ∧
+      base.progMaps.lookup pname = some sm ∧ pvars = .obj vk ∧
+      alterD sm pk "program_name" (.str (rename pname i)) = .ok pk1 ∧
+      alterVariations sm n i pk1 vk = .ok pk2 ∧ nm = rename pname i ∧ p = .obj pk2 := by
+  simp only [varyProgram] at h
+  split at h
+  · rename_i pk sm' hp hm
+    split at h
+    · cases h
+    · rename_i pk1 h1
+      split at h
+      · rename_i vk
+        split at h
+        · rename_i pk2 h2
+          simp only [Except.ok.injEq, Prod.mk.injEq] at h
+          obtain ⟨rfl, rfl, rfl⟩ := h
+          exact ⟨pk, vk, pk1, pk2, hp, hm, rfl, h1, h2, rfl, rfl⟩
+        · cases h
+      · cases h
+  · cases h
+
+theorem isSome_setKey {k k' : String} {v : J} {kvs : KV} (h : (kvs.lookup k').isSome = true) :
+    ((kvs.setKey k v).lookup k').isSome = true := by
+  by_cases e : k' = k
+  · subst e; simp [KV.lookup_setKey_same]
+  · rw [KV.lookup_setKey_ne v e]; exact h
+
+theorem varyProgramsInner_present (base : PH) (n i : Nat) : ∀ (vars : KV) (acc acc' : KV × SML),
+    varyProgramsInner base n i acc vars = .ok acc' →
+    (∀ pname, pname ∈ vars.keys → (acc'.1.lookup (rename pname i)).isSome = true) ∧
+    (∀ k, (acc.1.lookup k).isSome = true → (acc'.1.lookup k).isSome = true)
+  | .nil, acc, acc', h => by
+    simp only [varyProgramsInner] at h
+    cases h
+    exact ⟨by simp [KV.keys], fun _ hk => hk⟩
+  | .cons pname pvars rest, acc, acc', h => by
+    simp only [varyProgramsInner] at h
+    cases hp : varyProgram base n i pname pvars with
+    | error e => simp [hp] at h
+    | ok t =>
+      obtain ⟨nm, p, sm⟩ := t
+      have hnm := varyProgram_name hp
+      subst hnm
+      simp only [hp] at h
+      obtain ⟨ih1, ih2⟩ := varyProgramsInner_present base n i rest _ acc' h
+      constructor
+      · intro q hq
+        simp only [KV.keys, List.mem_cons] at hq
+        rcases hq with rfl | hq
+        · exact ih2 _ (by simp [KV.lookup_setKey_same])
+        · exact ih1 q hq
+      · intro k hk
+        exact ih2 k (isSome_setKey hk)
+
+theorem varyProgramsOuter_present (base : PH) (n : Nat) (vars : KV) :
+    ∀ (cnt off : Nat) (acc acc' : KV × SML),
+    varyProgramsOuter base n vars cnt off acc = .ok acc' →
+    (∀ pname i, pname ∈ vars.keys → off ≤ i → i < off + cnt →
+        (acc'.1.lookup (rename pname i)).isSome = true) ∧
+    (∀ k, (acc.1.lookup k).isSome = true → (acc'.1.lookup k).isSome = true)
+  | 0, off, acc, acc', h => by
+    simp only [varyProgramsOuter] at h
+    cases h
+    exact ⟨fun _ i _ h1 h2 => by omega, fun _ hk => hk⟩
+  | cnt + 1, off, acc, acc', h => by
+    simp only [varyProgramsOuter] at h
+    cases hi : varyProgramsInner base n off acc vars with
+    | error e => simp [hi] at h
+    | ok acc1 =>
+      simp only [hi] at h
+      obtain ⟨in1, in2⟩ := varyProgramsInner_present base n off vars acc acc1 hi
+      obtain ⟨ih1, ih2⟩ := varyProgramsOuter_present base n vars cnt (off + 1) acc1 acc' h
+      constructor
+      · intro q i hq h1 h2
+        by_cases e : i = off
+        · subst e; exact ih2 _ (in1 q hq)
+        · exact ih1 q i hq (by omega) (by omega)
+      · intro k hk
+        exact ih2 k (in2 k hk)
+
+/-- what one loop iteration stores under the name of the copy it makes (no other varied program of
+this iteration gets the same name) -/
+theorem varyProgramsInner_lookup (base : PH) (n i : Nat) : ∀ (vars : KV) (acc acc' : KV × SML)
+    (pname : String) (pvars : J), vars.wf = true →
+    varyProgramsInner base n i acc vars = .ok acc' → vars.lookup pname = some pvars →
+    (∀ q, q ∈ vars.keys → q ≠ pname → rename q i ≠ rename pname i) →
+    ∃ p sm, varyProgram base n i pname pvars = .ok (rename pname i, p, sm) ∧
+      acc'.1.lookup (rename pname i) = some p
+  | .nil, _, _, _, _, _, _, hl, _ => by simp [KV.lookup] at hl
+  | .cons q0 v0 rest, acc, acc', pname, pvars, hwf, h, hl, hnc => by
+    obtain ⟨hq0, _, hwfr⟩ := KV.wf_cons hwf
+    simp only [varyProgramsInner] at h
+    cases hp : varyProgram base n i q0 v0 with
+    | error e => simp [hp] at h
+    | ok t =>
+      obtain ⟨nm, p, sm⟩ := t
+      have hnm := varyProgram_name hp
+      subst hnm
+      simp only [hp] at h
+      by_cases hk : q0 = pname
+      · subst hk
+        simp only [KV.lookup, if_true] at hl
+        cases hl
+        refine ⟨p, sm, hp, ?_⟩
+        rw [varyProgramsInner_other base n i (rename q0 i) rest _ acc' h
+          (fun q hq => hnc q (by simp [KV.keys, hq]) (fun e => hq0 (e ▸ hq)))]
+        exact KV.lookup_setKey_same _ _ _
+      · simp only [KV.lookup, hk, if_false] at hl
+        exact varyProgramsInner_lookup base n i rest _ acc' pname pvars hwfr h hl
+          (fun q hq hne => hnc q (by simp [KV.keys, hq]) hne)
+
+theorem varyProgramsOuter_lookup (base : PH) (n : Nat) (vars : KV) (pname : String) (pvars : J)
+    (i : Nat) (hwf : vars.wf = true) (hl : vars.lookup pname = some pvars)
+    (hnc : ∀ q j, q ∈ vars.keys → (q ≠ pname ∨ j ≠ i) → rename q j ≠ rename pname i) :
+    ∀ (cnt off : Nat) (acc acc' : KV × SML),
+    varyProgramsOuter base n vars cnt off acc = .ok acc' → off ≤ i → i < off + cnt →
+    ∃ p sm, varyProgram base n i pname pvars = .ok (rename pname i, p, sm) ∧
+      acc'.1.lookup (rename pname i) = some p
+  | 0, off, _, _, _, h1, h2 => by omega
+  | cnt + 1, off, acc, acc', h, h1, h2 => by
+    simp only [varyProgramsOuter] at h
+    cases hi : varyProgramsInner base n off acc vars with
+    | error e => simp [hi] at h
+    | ok acc1 =>
+      simp only [hi] at h
+      by_cases e : i = off
+      · subst e
+        obtain ⟨p, sm, hp, hlk⟩ := varyProgramsInner_lookup base n i vars acc acc1 pname pvars hwf hi hl
+          (fun q hq hne => hnc q i hq (Or.inl hne))
+        refine ⟨p, sm, hp, ?_⟩
+        rw [varyProgramsOuter_other base n vars (rename pname i) cnt (i + 1) acc1 acc' h
+          (fun q j hq hj1 _ => hnc q j hq (Or.inr (by omega)))]
+        exact hlk
+      · exact varyProgramsOuter_lookup base n vars pname pvars i hwf hl hnc cnt (off + 1) acc1 acc' h
+          (by omega) (by omega)
+
+/-! ### methods level: the varied method -/
+
+theorem varyMethod_inv {n i : Nat} {ms ms2 : KV} {mm mm1 : SML} {labels labels1 : List J}
+    {mname : String} {mvars : J}
+    (h : varyMethod n i ms mm labels mname mvars = .ok (ms2, mm1, labels1)) :
+    ∃ target vk ls ad, ms.lookup mname = some target ∧ mvars = .obj vk ∧
+      removeFirst (.str mname) labels = some ls ∧ labels1 = ls ++ [J.str (rename mname i)] ∧
+      buildAlter n i .nil vk = .ok ad ∧
+      alterD (.high mm1) ((ms.erase mname).setKey (rename mname i) target) (rename mname i)
+        (.obj (ad.setKey "method_name" (.str (rename mname i)))) = .ok ms2 := by
+  simp only [varyMethod] at h
+  split at h
+  · cases h
+  · rename_i target ht
+    split at h
+    · cases h
+    · rename_i ls hls
+      split at h
+      · rename_i vk
+        split at h
+        · cases h
+        · rename_i ad had
+          split at h
+          · rename_i ms2' halt
+            simp only [Except.ok.injEq, Prod.mk.injEq] at h
+            obtain ⟨rfl, rfl, rfl⟩ := h
+            exact ⟨target, vk, ls, ad, ht, rfl, hls, rfl, had, halt⟩
+          · cases h
+      · cases h
+
 end LdarModel.Holder
